@@ -335,10 +335,15 @@ package server
 //@ ensures ghost(truncates, recv) == old(ghost(truncates, recv)) + 1
 //@ ensures err == nil ==> res != nil && fresh(res) && ghost(lastTruncHead, recv) == res.HeadEntryId && (res.HeadEntryId == nil || fresh(res.HeadEntryId))
 
+// The last entry of the leader's log whose term is <= the given term, as ghost functions
+// of the log and the term (the log does not change while a follower is attached).
+//@ ghostfun hiTermOf(wal.Wal, int64) int64
+//@ ghostfun hiOffOf(wal.Wal, int64) int64
+
 //@ func getHighestEntryOfTerm(w, term) (id, err)
 //@ trusted
 //@ modifies nothing
-//@ ensures err == nil ==> id != nil
+//@ ensures err == nil ==> id != nil && id.Term == hiTermOf(w, term) && id.Offset == hiOffOf(w, term)
 //@ note trusted: walks the log backwards through a reverse reader (proved in C09) to the last entry of a term <= the given one
 
 // truncateFollowerIfNeeded: the head the follower claimed is taken over as the starting
@@ -352,7 +357,7 @@ package server
 //@ requires followerHeadEntryId != nil && lc.leaderElectionHeadEntryId != nil && lc.rpcClient != nil && lc.wal != nil && lc.log != nil
 //@ ensures err == nil && res == followerHeadEntryId ==> ghost(truncates, lc.rpcClient) == old(ghost(truncates, lc.rpcClient))
 //@ ensures err == nil && ghost(truncates, lc.rpcClient) != old(ghost(truncates, lc.rpcClient)) ==> res == ghost(lastTruncHead, lc.rpcClient)
-//@ ensures err == nil && ghost(truncates, lc.rpcClient) == old(ghost(truncates, lc.rpcClient)) ==> res == followerHeadEntryId && followerHeadEntryId.Term <= lc.leaderElectionHeadEntryId.Term
+//@ ensures err == nil && ghost(truncates, lc.rpcClient) == old(ghost(truncates, lc.rpcClient)) ==> res == followerHeadEntryId && ((followerHeadEntryId.Term == lc.leaderElectionHeadEntryId.Term && followerHeadEntryId.Offset <= lc.leaderElectionHeadEntryId.Offset) || (followerHeadEntryId.Term == hiTermOf(lc.wal, followerHeadEntryId.Term) && followerHeadEntryId.Offset <= hiOffOf(lc.wal, followerHeadEntryId.Term)))
 //@ ensures followerHeadEntryId.Term > lc.leaderElectionHeadEntryId.Term ==> err != nil && ghost(truncates, lc.rpcClient) == old(ghost(truncates, lc.rpcClient))
 //@ ensures followerHeadEntryId.Term == lc.leaderElectionHeadEntryId.Term && followerHeadEntryId.Offset <= lc.leaderElectionHeadEntryId.Offset ==> err == nil && res == followerHeadEntryId && ghost(truncates, lc.rpcClient) == old(ghost(truncates, lc.rpcClient))
 //@ modifies ghost(truncates, lc.rpcClient), ghost(lastTruncHead, lc.rpcClient)
@@ -368,3 +373,16 @@ package server
 //@ sequential
 //@ modifies *
 //@ note the body is not verified (stream endpoints, closures over the stream); only the structural obligation is checked
+
+// The follower's sync routine: an acknowledgement is sent only for an offset the WAL
+// reports as synced.
+//
+//@ func followerController.handleReplicateSync(fc, stream)
+//@ property C03
+//@ requires fc.wal != nil && fc.syncCond != nil && fc.applyEntriesCond != nil && stream != nil
+//@ loop 0 invariant fc.wal == old(fc.wal) && fc.syncCond != nil && fc.applyEntriesCond != nil
+//@ loop 0 modifies fields(wal.wal), fc.closeStreamWg, fresh
+//@ loop 1 invariant fc.wal == old(fc.wal) && fc.syncCond != nil && fc.applyEntriesCond != nil && newHeadOffset <= fc.wal.LastOffset()
+//@ loop 1 modifies fc.closeStreamWg, fresh
+//@ assert at call Send#0: offset <= fc.wal.LastOffset()
+//@ modifies fields(wal.wal), fc.closeStreamWg
